@@ -70,6 +70,14 @@ CHECKS['C03'] = dict(level='model_checking', engine='statesearch+mutate',
    technique='explicit-state BFS over ACL histories built with real record builders (counter-signed log feeding validating and non-validating lists); every history replayed through 5 build modes x prefixes x observers with full projection comparison; bounded exhaustive mutation of the last record of every history',
    text='All histories to depth 3 (4 thorough) from the root and 1 (2) from four scripted seed histories over every record kind incl. batch records are replayed as: one-by-one AddRawRecord, AddRawRecords whole and in every 2-split, a non-validating (network-acceptor) list with keep-only-ours decoding, lists built over in-memory and real any-store storages (also with perturbed order index / row order to force the PrevId fallback), and prefix replicas catching up from RecordsAfter; for owner / member / removed member / node observers all must agree on head, permissions, statuses, invites, requests, key ids, options and own key visibility. Every byte / truncation / id / prev-id / signature / identity / acceptor mutation of the last record must be rejected leaving projection and storage unchanged.',
    note='builder timestamps and nonces are random: only semantics are compared; byte sweeps run on the seeds, short histories and one history per record kind', ref='5 C03')
+CHECKS['C02'] = dict(level='exploration', engine='mutate+statesearch',
+   technique='exhaustive enumeration of (author x cited ACL record x parent cited record) positions built with the real ChangeBuilder and bounded exhaustive mutation (every byte x value set, every truncation, every id character, every signed / wrapper field with and without re-signing) of accepted changes, alone and mid-batch, on a real verifying object tree; hand-written permission table as reference; independent re-check of everything attached or stored',
+   text='Over a fixed ACL history (writer added, demoted, re-promoted, removed with rotation, re-added; guest; never-member; late admin) every author x cited record (r0..r6, unknown) x parent-cited record combination and every single alteration of an accepted change is fed to the real tree alone and inside [valid, case, valid]: acceptance must match the permission table, every non-re-signed alteration must be rejected, a failing call must leave heads / iteration / storage untouched, and every stored or presented change must pass an independent CID / signature / permission re-check.',
+   note='tree ACL view = non-member observer with the validating verifier (ACL records carry placeholder key material); unencrypted content; in-memory storage implementation', ref='5 C02')
+CHECKS['C12'] = dict(level='model_checking', engine='statesearch+mutate+faultstore',
+   technique='explicit-state enumeration of arrival orders x batchings x repetitions of value multisets on the real key-value storage (canonical-content dedup), pairwise real sync exchanges over a marshalled in-memory wire, bounded exhaustive authenticity mutations, storage-fault enumeration inside a write',
+   text='Hand-signed values (timestamps as data) of 2 accounts x 2 devices x 2 keys arrive in every permutation and batch composition (with repetition) through SetRaw / HandleMessage / local Set: contents, advertised index, hash and head-storage entry must equal the max-timestamp reference and a reopened store must advertise the same index; every ordered pair of reachable stores is synced once through the real diff / elements handlers and must become equal; relabelled, bit-flipped, cross-signed, unknown-record and unauthorised-signer variants must never be stored nor block valid batch neighbours; an error injected at every storage boundary of a write must leave index = stored and head = hash, and the retry must succeed.',
+   note='equal-timestamp ties excluded (property quantifier); bounds on multiset sizes recorded in the evidence; one any-store database per shard wiped between cases', ref='5 C12')
 NOT_YET = 'check not built yet (work in progress, see DESIGN.md section 10)'
 m = {
  'version': 1,
